@@ -58,12 +58,18 @@ def run_family(ctx, steps):
     ser_arg = pd.Series(np.arange(n, dtype=np.float64) * 3.0, index=O.index, name="argname")
     fam = {"O": O, "C": O.copy(), "S": O.iloc[1:], "K": O[["n", "x", "other"]], "E": O["n"], "A": A, "ser_arg": ser_arg,
            # plain argument objects a caller keeps: positions (with negatives), a list of sort directions, a list of columns
-           "P": np.array([-1, 0], dtype=np.int64), "ASC": [False, True], "BY": ["n.a", "n.b"], "SUBSET": ["n.a"]}
+           "P": np.array([-1, 0], dtype=np.int64), "ASC": [False, True], "BY": ["n.a", "n.b"], "SUBSET": ["n.a"],
+           # a list of column names the caller keeps (it names the `on` column too)
+           "BASECOLS": ["base", "key"]}
     # a nested Series a caller keeps, over an index with its OWN name (and the frame it was taken from)
     D = O[["n", "k"]].copy()
     D.index = D.index.rename("donor_id")
     fam["D"] = D
     fam["DS"] = D["n"]
+    # flat values a caller keeps (numpy memory the caller may change later): an array and a Series aligned with O's records
+    tot0 = int(O["n"].nest.flat_length)
+    fam["VAL"] = np.arange(tot0, dtype=np.float64) + 7000.0
+    fam["SVAL"] = pd.Series(np.arange(tot0, dtype=np.float64) + 8000.0, index=O["n"].nest.get_flat_index(), name="sval")
     fam["R"] = O.add_nested(A, "m")
     hist = [{"start": s.desc(), "labels": labels, "flat_labels": flab}]
 
@@ -80,7 +86,8 @@ def run_family(ctx, steps):
                 tname = rng.choice(frames)
                 X = fam[tname]
                 op = rng.choice(["query", "eval", "eval_assign", "sort", "dropna", "add_nested", "add_nested_series", "add_nested_series",
-                                 "reduce", "with_flat", "without",
+                                 "reduce", "with_flat", "with_flat_arg", "with_flat_arg", "setitem_field_arg", "without",
+                                 "pack_nested_series", "pack_seq_nested_series", "from_flat_on_with_arg_list",
                                  "to_parquet", "to_flat", "from_flat", "pack", "setitem_series_new_nest", "nest_lists", "take",
                                  "take_all", "mask_all", "loc_all", "iloc_all", "query_base_all", "concat_with_empty",
                                  "concat_empty_first", "reindex_same", "series_take_all", "series_concat_empty",
@@ -105,6 +112,18 @@ def run_family(ctx, steps):
                     new = X.reduce(lambda a: {"s": float(np.nansum(np.asarray(a, dtype=float)))}, "n.a")
                 elif op == "with_flat":
                     new = X["n"].nest.with_flat_field("z", np.arange(total(X), dtype=np.float64))
+                elif op == "with_flat_arg":
+                    # the caller's own array / Series as the new field (only frames that still have O's records)
+                    if total(X) == len(fam["VAL"]) and len(X) == len(fam["O"]):
+                        v = fam[rng.choice(["VAL", "SVAL"])]
+                        new = X["n"].nest.with_flat_field(rng.choice(["zv", "a"]), v if isinstance(v, np.ndarray) or
+                                                          X["n"].nest.get_flat_index().equals(v.index) else v.to_numpy())
+                elif op == "setitem_field_arg":
+                    if total(X) == len(fam["VAL"]) and len(X) == len(fam["O"]):
+                        Y = X.copy()
+                        v = fam[rng.choice(["VAL", "SVAL"])]
+                        Y[f"n.{rng.choice(['zv', 'a'])}"] = v if isinstance(v, np.ndarray) or Y["n"].nest.get_flat_index().equals(v.index) else v.to_numpy()
+                        new = Y
                 elif op == "without":
                     new = X["n"].nest.without_field("b")
                 elif op == "to_parquet":
@@ -116,6 +135,14 @@ def run_family(ctx, steps):
                 elif op == "pack":
                     from nested_pandas.series.packer import pack
                     new = pack(fam["A"], name="packed")
+                elif op in ("pack_nested_series", "pack_seq_nested_series"):
+                    # packing what is ALREADY a nested Series (the caller's): a new column all the same
+                    from nested_pandas.series.packer import pack, pack_seq
+                    src = fam[rng.choice(["E", "DS"])]
+                    new = pack(src) if op == "pack_nested_series" else pack_seq(src, name="again")
+                elif op == "from_flat_on_with_arg_list":
+                    tbl = fam["A"].assign(base=1.0).reset_index(names="key")
+                    new = NestedFrame.from_flat(tbl, base_columns=fam["BASECOLS"], on="key", name="ff")
                 elif op == "setitem_series_new_nest":
                     Y = X.copy()
                     Y["fresh.w"] = fam["ser_arg"]
@@ -213,10 +240,19 @@ def run_family(ctx, steps):
                 else:
                     X["newn.w"] = fam["ser_arg"]
             else:
-                may_change = {"A"}
-                desc.update(target="A", op="iloc_set")
-                A2 = fam["A"]
-                A2.iloc[rng.randrange(len(A2)), rng.randrange(2)] = 999
+                which = rng.choice(["A", "VAL", "SVAL"])
+                may_change = {which}
+                if which == "A":
+                    desc.update(target="A", op="iloc_set")
+                    A2 = fam["A"]
+                    A2.iloc[rng.randrange(len(A2)), rng.randrange(2)] = 999
+                elif len(fam["VAL"]):
+                    # the caller changes ITS OWN values in place: nothing made from them earlier may follow
+                    desc.update(target=which, op="values_set")
+                    if which == "VAL":
+                        fam["VAL"][rng.randrange(len(fam["VAL"]))] = -999.0
+                    else:
+                        fam["SVAL"].iloc[rng.randrange(len(fam["SVAL"]))] = -999.0
         except Exception as e:  # noqa: BLE001  (a refused operation must not change anything either)
             desc["raised"] = f"{type(e).__name__}: {str(e)[:80]}"
             if kind in ("inplace_array", "inplace_frame"):
